@@ -42,7 +42,17 @@ def world():
                 fixed[name] = e.make_leaf(cols, payload, name="F", min_rows=3, max_rows=3)
             else:
                 fixed[name] = LeafRelation(e, cols, iteration.RowSequence(build.rows(rows)), name="F", min_rows=3, max_rows=3)
-        _st["w"] = (engs, ident, fixed, rows)
+        # the second kind of fixed operand: a zero-column projection of a one-row leaf (a join identity)
+        unit = {}
+        for name, e in engs.items():
+            cols = build.tags(("a",))
+            if name == "sql":
+                table = sqlalchemy.table("U", sqlalchemy.column("a"))
+                leaf = e.make_leaf(cols, sql.Payload(table, columns_available={build.tag("a"): table.c["a"]}), name="U", min_rows=1, max_rows=1)
+            else:
+                leaf = LeafRelation(e, cols, iteration.RowSequence(build.rows([{"a": 1}])), name="U", min_rows=1, max_rows=1)
+            unit[name] = leaf.with_only_columns(frozenset())
+        _st["w"] = (engs, ident, {"F": fixed, "U": unit}, rows)
     return _st["w"]
 
 
@@ -55,9 +65,9 @@ def do_join(c, rel, fixed, engs):
 
 def replay_state(st, out):
     engs, ident, fixed, rows = world()
-    case = {k: st[k] for k in ("ei", "ef", "hist")}
+    case = {k: st[k] for k in ("ei", "ef", "fk", "hist")}
     rel = ident[st["ei"]]
-    F = fixed[st["ef"]]
+    F = fixed[st["fk"]][st["ef"]]
     try:
         for c in st["hist"]:
             if c["f"] == "xfer":
@@ -81,7 +91,7 @@ def replay_state(st, out):
         out["n_drift"] += 1
         if len(out["drift"]) < 3:
             out["drift"].append({"what": "tree differs from the model's", "case": case, "real": canon_tree(real), "model": canon_tree(st["tree"])})
-    out["events"].append({"tree": real, "env": {"I": [[]], "F": rows}, "rows": st["rows"], "bag": True,
+    out["events"].append({"tree": real, "env": {"I": [[]], "F": rows, "U": [{"a": 1}]}, "rows": st["rows"], "bag": True,
                           "checks": ["wf", "denbag"], "case": case})
     # requests the model refuses here
     for r in st["refused"]:
@@ -96,7 +106,7 @@ def replay_state(st, out):
             continue
         # accepted by the code, refused by the model: judged on its merits by TLC (drift unless ill-formed / wrong rows)
         out["n_drift"] += 1
-        out["events"].append({"tree": full_tree(got), "env": {"I": [[]], "F": rows}, "rows": rows, "bag": True,
+        out["events"].append({"tree": full_tree(got), "env": {"I": [[]], "F": rows, "U": [{"a": 1}]}, "rows": (rows if st["fk"] == "F" else [[]]), "bag": True,
                               "checks": ["wf", "denbag"], "case": dict(case, call=c, note="accepted by the code, refused by the model")})
 
 
@@ -111,7 +121,7 @@ def worker(lines, ctx):
         if len(out["violations"]) > 60:
             out["violations"] = trim(out["violations"])
         if len(out["samples"]) < 1 and st["fired"]:
-            out["samples"].append({"ei": st["ei"], "ef": st["ef"], "hist": st["hist"], "model_tree": canon_tree(st["tree"])})
+            out["samples"].append({"ei": st["ei"], "ef": st["ef"], "fk": st["fk"], "hist": st["hist"], "model_tree": canon_tree(st["tree"])})
     return out
 
 
@@ -136,5 +146,11 @@ def run(tier: str, seed: int) -> list[Part]:
         raise MachineryError(f"companion IdJoinKF28 no longer violates WF (got {kf.violated})")
     p = Part(name="idjoin:F28-companion", cfg="IdJoinKF28.cfg", states=max(kf.distinct, 1), transitions=max(kf.generated, 1))
     p.notes.append("TLC counterexample re-derives F28 from the pinned-commit rule: backtracking re-wraps the fixed operand a join-identity short cut handed back in a transfer to its own engine")
+    parts.append(p)
+    kf = run_tlc("MC_IdJoin.tla", "IdJoinKF30.cfg", expect_violation=True)
+    if kf.violated != "WF":
+        raise MachineryError(f"companion IdJoinKF30 no longer violates WF (got {kf.violated})")
+    p = Part(name="idjoin:F30-companion", cfg="IdJoinKF30.cfg", states=max(kf.distinct, 1), transitions=max(kf.generated, 1))
+    p.notes.append("TLC counterexample re-derives F30 from the pinned-commit rule: the SQL engine conforms an ignored join-identity operand of another engine and hands it back inside one of its Select markers")
     parts.append(p)
     return parts
